@@ -4,7 +4,7 @@ def groups(tier):
     b = {'totality': 'every registered command (86) x every argument count 0..max+1 x 4 kinds of argument words (numbers, empty strings, garbage, plausible names), argument vector and words allocated to their exact size; 10 truncated / unknown command lines; 12 unknown sub-commands / object names',
          'queries': 'arbitrary real coordinates; value (scalar, 3-vector), applied force, bias energy, total energy, atom applied forces / positions / ids, atomic gradients, step number',
          'actions': 'cv config vs read_config_string, cv colvar addforce (plain and extended-Lagrangian variable, running simulation) vs colvar::add_bias_force, cv reset; arbitrary real coordinates and forces'}
-    g = [CL.Group('C20_script.cpp', ['h_c20_total'], setup=['h_c20_setup'], bounds=b, max_paths=2000, path_time=120, total_time=900, diff=False),
+    g = [CL.Group('C20_script.cpp', ['h_c20_total'], setup=['h_c20_setup'], bounds=b, max_paths=6000, path_time=120, total_time=900 if tier == 'quick' else 2400, diff=False, ext={'params': {'independent_args': 0 if tier == 'quick' else 1}}),
          CL.Group('C20_script.cpp', ['h_c20_truncated', 'h_c20_unknown', 'h_c20_queries'], setup=['h_c20_setup'], bounds=b, max_paths=100, path_time=200, total_time=600, diff=True),
          CL.Group('C20_script.cpp', ['h_c20_actions'], setup=['h_c20_setup_actions'], bounds=b, max_paths=60, path_time=280, total_time=900, diff=True)]
     return g
